@@ -196,6 +196,11 @@ def emit_cpp(prog, opts=None):
             if st.kind == 'exit': tn = '%s::exit_pt<%s >' % (machine_type(prog, m), tn)
             out.append('    case %d: return VF_SID(%s, %s);' % (st.idx, machine_type(prog, m), tn))
     out.append('    default: return -1;\n  }\n}')
+    if opts.get('probe') == 'ids_root':
+        out.append('void vf_probe(void) {')
+        for r in range(len(prog.root.regions)):
+            out.append('  vf_log(%d, vf_sidx(0, (int)VF_IDS(g_sm)[%d]));' % (6000 + 100 + r, r))
+        out.append('}')
     if opts.get('introspect'):
         out.append('__attribute__((noinline)) int vf_introspect(void) {\n  int m = 0;')
         out.append('#if VF_IS_MP11')
